@@ -204,3 +204,77 @@ func VerifC18OneHop(h *verifh.H) {
 	}
 	h.Observe("emitted", vJoinS(emitted))
 }
+
+// VerifC18TwoDeps: two dependencies on the SAME dependency dataset D that
+// reach the main dataset M through different predicates (d -p1-> m and
+// d -p2-> m). After a change to an entity of D, the main entities connected to
+// it through EITHER dependency are emitted by the runs that follow.
+func VerifC18TwoDeps(h *verifh.H) {
+	hub := server.VerifNewHub(h)
+	M, _ := hub.Dsm.CreateDataset("M", nil)
+	D, _ := hub.Dsm.CreateDataset("D", nil)
+	mkM := func(id string) *server.Entity {
+		e := server.NewEntity(id, 0)
+		e.Properties["ns0:tag"] = "m0"
+		return e
+	}
+	mkD := func(tag, r1, r2 string) *server.Entity {
+		e := server.NewEntity("ns0:d1", 0)
+		e.Properties["ns0:tag"] = tag
+		if r1 != "" {
+			e.References["ns0:p1"] = r1
+		}
+		if r2 != "" {
+			e.References["ns0:p2"] = r2
+		}
+		return e
+	}
+	h.Assert(M.StoreEntities([]*server.Entity{mkM("ns0:m1"), mkM("ns0:m2")}) == nil, "write M")
+	pick := func(name string) string {
+		return []string{"", "ns0:m1", "ns0:m2"}[h.Choice(name, 3)]
+	}
+	// the initial version of d1 always carries both predicates, so that both exist in the store
+	h.Assert(D.StoreEntities([]*server.Entity{mkD("d0", "ns0:m1", "ns0:m2")}) == nil, "write D")
+	ms := &source.MultiSource{DatasetName: "M", Store: hub.Store, DatasetManager: hub.Dsm, Logger: hub.Env.Logger}
+	ms.Dependencies = []source.Dependency{
+		{Dataset: "D", Joins: []source.Join{{Dataset: "M", Predicate: "ns0:p1", Inverse: false}}},
+		{Dataset: "D", Joins: []source.Join{{Dataset: "M", Predicate: "ns0:p2", Inverse: false}}},
+	}
+	sink := &vSink{failBatch: -1, failing: map[string]bool{}}
+	pl := &IncrementalPipeline{PipelineSpec{source: ms, sink: sink, batchSize: 1 + h.Choice("batchSize", 2)}}
+	j := &job{id: "ms2-job", title: "ms2-job", pipeline: pl, runner: vRunner(hub, 1, 1)}
+	runToFixpoint := func() []string {
+		sink.delivered = nil
+		last := ""
+		for r := 0; r < 6; r++ {
+			_, err := pl.sync(j, context.Background())
+			h.Assert(err == nil, "run succeeds")
+			st := &SyncJobState{}
+			_ = hub.Store.GetObject(server.JobDataIndex, "ms2-job", st)
+			if st.ContinuationToken == last {
+				break
+			}
+			last = st.ContinuationToken
+		}
+		var ids []string
+		for _, e := range sink.delivered {
+			ids = append(ids, e.ID)
+		}
+		sort.Strings(ids)
+		return ids
+	}
+	_ = runToFixpoint()
+	r1, r2 := pick("newP1"), pick("newP2")
+	h.Assert(D.StoreEntities([]*server.Entity{mkD("d1", r1, r2)}) == nil, "change D")
+	emitted := runToFixpoint()
+	for _, m := range []string{r1, r2} {
+		if m != "" {
+			h.Assert(vContains(emitted, m), "a main entity the changed dependency entity now points to (through either dependency) is emitted :: expected="+m+" p1="+r1+" p2="+r2+" emitted="+vJoinS(emitted))
+		}
+	}
+	// at the previous run d1 pointed to m1 through p1 and to m2 through p2: whether a link stays
+	// or is removed, its old target is connected (now, or as things stood then) and must be emitted
+	h.Assert(vContains(emitted, "ns0:m1"), "the previous target of the first dependency's link is emitted :: p1="+r1+" p2="+r2+" emitted="+vJoinS(emitted))
+	h.Assert(vContains(emitted, "ns0:m2"), "the previous target of the second dependency's link (same dependency dataset) is emitted :: p1="+r1+" p2="+r2+" emitted="+vJoinS(emitted))
+	h.Observe("emitted", vJoinS(emitted))
+}
